@@ -662,6 +662,8 @@ pub fn record_graph<A>(
 {
     let max_states = if sys.max_states > 0 { sys.max_states } else { 2000 };
     let mut seen: HashMap<String, usize> = HashMap::new();
+    // the first real state seen for every canonical projection: == of the real states must agree with the projection
+    let mut first: Vec<(String, ActorModelState<A, Hist>)> = Vec::new();
     let mut queue: VecDeque<ActorModelState<A, Hist>> = VecDeque::new();
     let inits = model.init_states();
     let mut nrec = 0usize;
@@ -697,6 +699,7 @@ pub fn record_graph<A>(
         let mut edges = vec![];
         let mut ignored = vec![];
         let mut zipped: Vec<(Value, Value)> = vec![];
+        let mut eq_ok = true;
         for a in actions {
             let aj = action_json(&a);
             match model.next_state(&s, a) {
@@ -708,8 +711,17 @@ pub fn record_graph<A>(
                     edges.push(json!({"a": aj, "to": nj, "inb": inb}));
                     if inb {
                         let k = nj.to_string();
+                        // (==) in both orders against the stored representatives of the most recent projections
+                        let lo = first.len().saturating_sub(48);
+                        for (k2, st2) in &first[lo..] {
+                            let same = *k2 == k;
+                            if (n == *st2) != same || (*st2 == n) != same {
+                                eq_ok = false;
+                            }
+                        }
                         if !seen.contains_key(&k) {
-                            seen.insert(k, seen.len());
+                            seen.insert(k.clone(), seen.len());
+                            first.push((k, n.clone()));
                             queue.push_back(n);
                         }
                     }
@@ -752,7 +764,7 @@ pub fn record_graph<A>(
             "edges": edges, "ignored": ignored, "next_steps_ok": next_steps_ok, "len": s.network.len(),
             "iter_all": iter_all, "iter_all_truncated": iter_all_truncated, "iter_deliv": iter_deliv,
             "stream": stream_of(&s), "has_rep": has_rep, "rep_panicked": rep_panicked, "rep": rep_json,
-            "empty_flows": empty_flows(&s.network)});
+            "empty_flows": empty_flows(&s.network), "eq_ok": eq_ok});
         serde_json::to_writer(&mut *out, &rec).unwrap();
         out.write_all(b"\n").unwrap();
     }
